@@ -1,7 +1,7 @@
 (* C08Corr.v — runs EvatraModel.evatra_struct at binary64 on the states hermes.Evatra was run on and
    compares every observable output bit for bit (kernel tie, DESIGN.md §2.3). *)
 From Coq Require Import ZArith List Bool Floats.
-From Hermes Require Import Num WaterModel EvatraModel C01Corr.
+From Hermes Require Import Num WaterModel EvatraModel Et0Model C01Corr.
 Import ListNotations.
 
 Record evatra_obs := {
@@ -29,3 +29,55 @@ Definition evatra_check (c : evatra_in (T:=float) * evatra_obs) : nat :=
 (* the cap/floor step alone: (crop?, uncapped value, observed capped value) *)
 Definition cap_check (c : bool * float * float) : nat :=
   let '(crop, v, r) := c in if float_same (pot_cap crop v) r then 0%nat else 1%nat.
+
+(* ---------------------------------------------------------------------------------------------- *)
+(* potential ET before the cap (Et0Model): the oracle functions at binary64 are a table of the values
+   Go computed, keyed by kind (1 exp, 2 log, 3 sin, 4 cos, 5 tan, 6 asin, 7 acos, 8 pow) and argument bits;
+   a key that is not in the table yields [miss] *)
+Definition otab := list (nat * float * float * float).
+
+Fixpoint tab_find (miss : float) (t : otab) (k : nat) (a b : float) : float :=
+  match t with
+  | [] => miss
+  | (k', a', b', v) :: r =>
+      if Nat.eqb k k' && float_same a a' && float_same b b' then v else tab_find miss r k a b
+  end.
+
+Definition orc_of_table (miss : float) (t : otab) : Orc float :=
+  {| o_exp := fun x => tab_find miss t 1 x PrimFloat.zero; o_log := fun x => tab_find miss t 2 x PrimFloat.zero;
+     o_sin := fun x => tab_find miss t 3 x PrimFloat.zero; o_cos := fun x => tab_find miss t 4 x PrimFloat.zero;
+     o_tan := fun x => tab_find miss t 5 x PrimFloat.zero; o_asin := fun x => tab_find miss t 6 x PrimFloat.zero;
+     o_acos := fun x => tab_find miss t 7 x PrimFloat.zero; o_pow := fun x y => tab_find miss t 8 x y |}.
+
+(* the Go compiler's values of the constant expressions (one rounding each) *)
+Definition constsF : Consts float :=
+  {| k_pi := 0x1.921fb54442d18p+1%float; k_2pi := 0x1.921fb54442d18p+2%float;
+     k_2pi_365 := 0x1.1a099d4b3ac9ap-6%float; k_8pi_180 := 0x1.1df46a2529d39p-3%float;
+     k_sc := 0x1.d5d34ce3fda04p+11%float; k_24_pi := 0x1.e8ec8a4aeacc4p+2%float |}.
+
+Definition consts_check (c : list float) : nat :=
+  if floats_same c [k_pi constsF; k_2pi constsF; k_2pi_365 constsF; k_8pi_180 constsF; k_sc constsF; k_24_pi constsF]
+  then 0%nat else 1%nat.
+
+Record et0_obs := {
+  tb_precap : float; tb_et0 : float; tb_satdef : float; tb_rstom : float; tb_wind : float; tb_sund : float;
+  tb_fkc : float; tb_radsum : float; tb_capped : float;
+}.
+
+Definition et0_outs (m : et0_out (T:=float)) : list float :=
+  [to_precap m; to_et0 m; to_satdef m; to_rstom m; to_wind m; to_sund m; to_fkc m; to_radsum m].
+
+(* bitmask: 1 pre-cap potential ET, 2 ET0, 4 SATDEF, 8 RSTOM, 16 WIND, 32 SUND, 64 FKC, 128 RADSUM,
+   256 capped value (pot_cap of the model's pre-cap value), 512 an oracle argument the model asks for is
+   not in the table (the result depends on the value returned for a miss) *)
+Definition et0_check (c : et0_in (T:=float) * otab * et0_obs) : nat :=
+  let '(x, t, o) := c in
+  let m := et0_struct (orc_of_table PrimFloat.nan t) constsF x in
+  let m0 := et0_struct (orc_of_table PrimFloat.one t) constsF x in
+  let b (ok : bool) (v : nat) := if ok then 0%nat else v in
+  (b (float_same (to_precap m) (tb_precap o)) 1 + b (float_same (to_et0 m) (tb_et0 o)) 2 +
+   b (float_same (to_satdef m) (tb_satdef o)) 4 + b (float_same (to_rstom m) (tb_rstom o)) 8 +
+   b (float_same (to_wind m) (tb_wind o)) 16 + b (float_same (to_sund m) (tb_sund o)) 32 +
+   b (float_same (to_fkc m) (tb_fkc o)) 64 + b (float_same (to_radsum m) (tb_radsum o)) 128 +
+   b (float_same (pot_cap (ti_crop x) (to_precap m)) (tb_capped o)) 256 +
+   b (floats_same (et0_outs m) (et0_outs m0)) 512)%nat.
